@@ -28,6 +28,8 @@ import traceback
 HOME = os.environ.get("VERIF_HOME") or os.path.dirname(
     os.path.dirname(os.path.abspath(__file__))
 )
+# where evidence/ and replays/ go: /verif itself, except for drills against scratch copies
+OUT = os.environ.get("VERIF_OUT") or HOME
 sys.path.insert(0, HOME) if HOME not in sys.path else None
 
 from vmon import base  # noqa: E402
@@ -283,10 +285,10 @@ def finish(driver, prop, tier, seed, chunks, t0, replay=False):
         "wall_s": wall,
         "violations": len(new_violations),
     }
-    err = validate_evidence(ev)
+    err = None if replay else validate_evidence(ev)
     if not replay:
-        os.makedirs(os.path.join(HOME, "evidence"), exist_ok=True)
-        with open(os.path.join(HOME, "evidence", f"{prop}.json"), "w") as f:
+        os.makedirs(os.path.join(OUT, "evidence"), exist_ok=True)
+        with open(os.path.join(OUT, "evidence", f"{prop}.json"), "w") as f:
             json.dump(ev, f, indent=1, default=str)
 
     print(f"[{prop}] tier={tier} seed={seed} cases={evaluations} "
@@ -302,13 +304,13 @@ def finish(driver, prop, tier, seed, chunks, t0, replay=False):
         print(f"BROKEN: evidence does not validate: {err}")
         return EXIT_BROKEN
     if new_violations:
-        os.makedirs(os.path.join(HOME, "replays"), exist_ok=True)
+        os.makedirs(os.path.join(OUT, "replays"), exist_ok=True)
         by_mech = {}
         for v in new_violations:
             by_mech.setdefault(v["mechanism"], []).append(v)
         n = 0
         for mech, vs in sorted(by_mech.items()):
-            path = os.path.join(HOME, "replays", f"{prop}-{n}.json")
+            path = os.path.join(OUT, "replays", f"{prop}-{n}.json")
             n += 1
             if not replay:
                 with open(path, "w") as f:
